@@ -473,6 +473,14 @@ def plan_c07(pid, rng, quick):
                 bs = [first] + [{"resend": 1} for _ in range(prefix - 1)] + [{"resend": 1, "faults": [["relabel", 0, t]]}, {"resend": 2}]
                 plan.append({"id": "bare-main-as/%s/%s/p%d" % (signal, t, prefix), "signal": signal, "opts": {}, "batches": bs,
                              "props": [], "mode": 0, "nowire": True})
+        # boundary batches on a healthy stream: the full range of the 16-bit resource ids (65,535 and 65,536 resources in one
+        # batch, with and without resource attributes) - whatever the producer emits, the consumer must return
+        for nres, with_ in (((65536, "resattr1"), (65535, "resattr")) if quick else ((65536, "resattr1"), (65535, "resattr"), (65536, "plain"), (65535, "resattr1"))):
+            if True:
+                big = {"gen": "parents", "n": nres, "nres": nres, "with": with_, "nodump": True}
+                plan.append({"id": "boundary/%s/%d/%s" % (signal, nres, with_), "signal": signal, "opts": {},
+                             "batches": [otap.rand_batch(rng, rich=2), big, otap.rand_batch(rng, rich=1)],
+                             "props": [], "mode": 2, "nowire": True})
         # healthy streams: a well-formed batch on a healthy stream is decoded completely
         for i in range(20 if quick else 1200):
             plan.append(otap.rand_stream(rng, "healthy/%s/%d" % (signal, i), signal, []))
